@@ -461,8 +461,23 @@ impl<const BITS: usize, const LIMBS: usize> PrimInt for Uint<BITS, LIMBS> {
     }
 
     #[inline(always)]
-    fn pow(self, exp: u32) -> Self {
-        self.pow(Self::from(exp))
+    fn pow(self, mut exp: u32) -> Self {
+        // `exp` need not be representable as `Self` (`BITS < 32`), so
+        // `Self::from(exp)` would panic: exponentiate by squaring on the
+        // `u32` exponent, like `Uint::wrapping_pow`.
+        if BITS == 0 {
+            return self;
+        }
+        let mut base = self;
+        let mut result = Self::ONE;
+        while exp != 0 {
+            if exp & 1 == 1 {
+                result = <Self>::wrapping_mul(result, base);
+            }
+            base = <Self>::wrapping_mul(base, base);
+            exp >>= 1;
+        }
+        result
     }
 }
 
